@@ -1,5 +1,5 @@
 """Pristine reference server for C18: imports parso from the repo, loads the grammars in canonical
-order, then answers each call in a fork()ed child so that no call sees another call's state.
+order (or the reverse one, VERIF_REF_ORDER=reverse), then answers each call in a fork()ed child so that no call sees another call's state.
 Protocol: one JSON list of calls per line on stdin -> one JSON list of results per line on stdout."""
 import json
 import os
@@ -13,7 +13,10 @@ sys.dont_write_bytecode = True
 import parso  # noqa: E402
 from vf.calls import run_call  # noqa: E402
 
-for v in ['3.6', '3.7', '3.8', '3.9', '3.10', '3.11', '3.12', '3.13', '3.14']:
+_ORDER = ['3.6', '3.7', '3.8', '3.9', '3.10', '3.11', '3.12', '3.13', '3.14']
+if os.environ.get('VERIF_REF_ORDER') == 'reverse':
+    _ORDER.reverse()        # a second reference with the opposite loading order: the two must agree with each other as well
+for v in _ORDER:
     parso.load_grammar(version=v)
 
 
